@@ -153,7 +153,7 @@ def indValue (cs : List RawCpt) (name : String) : Except String Rat :=
   | none => .error s!"unknown-name:{name}"
 
 /-- the couplings `K Lx Ly k` that mention inductor `name`: (other inductor's branch, M) -/
-def couplings (cs : List RawCpt) (brs : List String) (name : String) : Except String (List (Nat × GQ)) :=
+def couplings (cs : List RawCpt) (brs : List String) (name : String) : Except String (List (Nat × GQ × Option GQ)) :=
   cs.foldlM (fun acc c =>
     if c.ty = "K" then
       match c.args with
@@ -166,7 +166,10 @@ def couplings (cs : List RawCpt) (brs : List String) (name : String) : Except St
           match ratSqrt? (a * b) with
           | some r => do
               let m ← lookupIdx brs other
-              pure (acc ++ [(m, GQ.ofRat (kk * r))])
+              let oi0 : Option GQ := match cs.find? (fun c => c.name = other && c.ty = "L") with
+                | some oc => (oc.args[1]? >>= parseVal).map GQ.ofRat
+                | none => none
+              pure (acc ++ [(m, GQ.ofRat (kk * r), oi0)])
           | none => throw "unsupported:irrational-mutual-inductance"
         else pure acc
       | _ => throw s!"syntax:K:{c.name}"
